@@ -57,8 +57,9 @@ def positions(ir, path, acc, depth):
         for j, s in enumerate(ir[2]):
             positions(s, path + [2, j], acc, depth + 1)
     elif k == 'Invoke':
-        for j, (is_spec, ss) in enumerate(ir[2]):
-            if is_spec:
+        for j, part in enumerate(ir[2]):
+            is_spec, ss = part[0], part[1]
+            if is_spec is True:
                 for m, s in enumerate(ss):
                     acc.append((path + [2, j, 1, m], depth + 1))
                     positions(s, path + [2, j, 1, m], acc, depth + 1)
